@@ -28,8 +28,9 @@ func catalogue() map[string][][]string {
 	c := map[string][][]string{
 		"SET": {w("SET k1 a POINT 1 2"), w("SET k1 n FIELD f 1 EX 100 POINT 3 4 5"), w("SET k1 a NX POINT 1 2"), w("SET k3 x XX POINT 1 2"),
 			{"SET", "k1", "o", "OBJECT", gPoly}, w("SET k1 s STRING hello"), w("SET k1 h HASH 9tbnwg"), w("SET k1 b BOUNDS 1 2 3 4"),
-			w("SET k1 a"), w("SET k1"), w("SET k1 a POINT x y"), w("SET k1 a FIELD z 1 POINT 1 2"), {"SET", "k1", "a", "OBJECT", "{bad"}},
-		"FSET":     {w("FSET k1 a f 5"), w("FSET k1 a f 1 g x"), w("FSET k1 nope XX f 1"), w("FSET k1 nope f 1"), w("FSET nokey a f 1"), w("FSET k1 a f"), w("FSET k1 a z 1")},
+			w("SET k1 r RETURN POINT 1 2"), w("SET k1 r FIELD f 1 RETURN WITHFIELDS POINT 1 2"), w("SET k1 a"), w("SET k1"), w("SET k1 a POINT x y"), w("SET k1 a FIELD z 1 POINT 1 2"), {"SET", "k1", "a", "OBJECT", "{bad"}},
+		"FSET":     {w("FSET k1 a f 5"), w("FSET k1 a f 1 g x"), w("FSET k1 nope XX f 1"), w("FSET k1 nope f 1"), w("FSET nokey a f 1"), w("FSET k1 a f"), w("FSET k1 a z 1"),
+			w("FSET k1 a f 2 RETURN"), w("FSET k1 a f 3 RETURN WITHFIELDS"), w("FSET k1 nope XX f 1 RETURN"), w("FSET k1 a RETURN f 1")},
 		"FGET":     {w("FGET k1 a f"), w("FGET k1 a nofield"), w("FGET k1 nope f"), w("FGET nokey a f"), w("FGET k1 a")},
 		"GET":      {w("GET k1 a"), w("GET k1 a WITHFIELDS"), w("GET k1 a POINT"), w("GET k1 a BOUNDS"), w("GET k1 a HASH 7"), w("GET k1 b"), w("GET k1 nope"), w("GET nokey a"), w("GET k1"), w("GET k1 a HASH 99"), w("GET k1 a BOGUS")},
 		"DEL":      {w("DEL k1 a"), w("DEL k1 nope"), w("DEL k1 nope ERRON404"), w("DEL nokey a ERRON404"), w("DEL k1"), w("DEL k1 a BOGUS")},
@@ -52,7 +53,7 @@ func catalogue() map[string][][]string {
 		"JDEL":     {w("JDEL k1 b x"), w("JDEL k1 c properties.n"), w("JDEL k1 b nopath"), w("JDEL k1 nope x"), w("JDEL nokey a x"), w("JDEL k1 b")},
 		"SCAN":     {w("SCAN k1"), w("SCAN k1 LIMIT 1"), w("SCAN k1 CURSOR 1 LIMIT 1 IDS"), w("SCAN k1 MATCH a* IDS"), w("SCAN k1 WHERE f 0 2 COUNT"), w("SCAN k1 DESC POINTS"), w("SCAN k1 BOUNDS"), w("SCAN k1 HASHES 5"), w("SCAN k1 NOFIELDS"), w("SCAN nokey"), w("SCAN"), w("SCAN k1 LIMIT x"), w("SCAN k1 BOGUS")},
 		"SEARCH":   {w("SEARCH k1"), w("SEARCH k1 IDS"), w("SEARCH k1 COUNT"), w("SEARCH k1 MATCH h* DESC"), w("SEARCH k1 LIMIT 1"), w("SEARCH nokey"), w("SEARCH"), w("SEARCH k1 BOGUS")},
-		"NEARBY":   {w("NEARBY k1 POINT 1 2"), w("NEARBY k1 POINT 1 2 100000"), w("NEARBY k1 LIMIT 1 IDS POINT 1 2"), w("NEARBY k1 DISTANCE POINT 1 2 500000"), w("NEARBY k1 COUNT POINT 1 2"), w("NEARBY nokey POINT 1 2"), w("NEARBY k1"), w("NEARBY k1 POINT x y"), w("NEARBY k1 BOUNDS 1 2 3 4")},
+		"NEARBY":   {w("NEARBY k1 POINT 1 2"), w("NEARBY k1 POINT 1 2 100000"), w("NEARBY k1 LIMIT 1 IDS POINT 1 2"), w("NEARBY k1 DISTANCE POINT 1 2 500000"), w("NEARBY k1 DISTANCE IDS POINT 1 2"), w("NEARBY k1 DISTANCE POINT 1 2"), w("NEARBY k1 DISTANCE POINTS POINT 1 2 900000"), w("NEARBY k1 COUNT POINT 1 2"), w("NEARBY nokey POINT 1 2"), w("NEARBY k1"), w("NEARBY k1 POINT x y"), w("NEARBY k1 BOUNDS 1 2 3 4")},
 		"WITHIN":   {w("WITHIN k1 BOUNDS 0 0 10 10"), w("WITHIN k1 IDS CIRCLE 1 2 100000"), w("WITHIN k1 COUNT BOUNDS 0 0 10 10"), {"WITHIN", "k1", "OBJECT", gPoly}, w("WITHIN k1 GET k2 a"), w("WITHIN k1 TILE 0 0 1"), w("WITHIN k1 QUADKEY 03"), w("WITHIN k1 HASH 9tb"), w("WITHIN k1 SECTOR 1 2 100000 0 90"), w("WITHIN nokey BOUNDS 0 0 1 1"), w("WITHIN k1"), w("WITHIN k1 BOUNDS 0 0"), w("WITHIN k1 GET nokey a")},
 		"INTERSECTS": {w("INTERSECTS k1 BOUNDS 0 0 10 10"), w("INTERSECTS k1 IDS CIRCLE 1 2 100000"), w("INTERSECTS k1 CLIPBY BOUNDS 0 0 5 5 BOUNDS 0 0 10 10"), {"INTERSECTS", "k1", "OBJECT", gLine}, w("INTERSECTS k1 GET k2 a"), w("INTERSECTS nokey BOUNDS 0 0 1 1"), w("INTERSECTS k1"), w("INTERSECTS k1 CIRCLE 1 2")},
 		"TEST":     {{"TEST", "POINT", "1", "2", "WITHIN", "BOUNDS", "0", "0", "10", "10"}, {"TEST", "GET", "k1", "a", "INTERSECTS", "OBJECT", gPoly}, w("TEST POINT 1 2 INTERSECTS CIRCLE 1 2 100"), w("TEST GET nokey a WITHIN BOUNDS 0 0 1 1"), w("TEST POINT 1 2"), w("TEST")},
